@@ -1765,6 +1765,25 @@ def run_nested_vars(ctx):
                          {"check": "nested-var", "document": doc, "variables": json.dumps(variables), "received": repr(out[1]), "response": got, "expected": name})
 
 
+def run_stand_in_scalar(ctx):
+    """The library's own stand-in scalar (`default_scalar`, what build_schema makes of `scalar J`): a NUMBER written inline reaches the
+    resolver as its source text ('5', '1.5'), the same number through a variable as the number - known finding A10."""
+    reg = U.fixed_registry()
+    spec = [arg("x", N("Any"))]
+    world = World(reg, [spec, [arg("x", L(N("Any")))]])
+    for si, t in ((0, N("Any")), (1, L(N("Any")))):
+        for j in (5, -3, 1.5, [1, "a"], {"k": 2}, "s", True):
+            lit = world.pipeline({"field": si, "vardefs": [], "args": [("x", U.ast_of_json(reg, t, j))], "variables": []})
+            var = world.pipeline({"field": si, "vardefs": [("v", t, None)], "args": [("x", ("var", "v"))], "variables": [("v", j)]})
+            ctx.count(2)
+            has_number = any(isinstance(x, (int, float)) and not isinstance(x, bool) for x in (j if isinstance(j, list) else (list(j.values()) if isinstance(j, dict) else [j])))
+            ctx.stat("stand-in-scalar:%s:%s" % ("number" if has_number else "other", "same" if lit == var else "differs"))
+            if lit != var:
+                ctx.fail("inline-vs-variable-differs:stand-in-scalar:%s" % ("number-literal-kept-as-text" if has_number else "other"),
+                         "the stand-in scalar hands the resolver different values for the same value inline and through a variable",
+                         {"check": "stand-in", "type": ty_str(t), "value": json.dumps(j), "inline": list(lit), "variable": list(var)})
+
+
 def run_extremes(ctx):
     """JSON values at the edge: ±inf, NaN, integers far beyond a double, and containers nested hundreds / thousands deep through a
     RECURSIVE input object — sent through `variables` to every kind of position and to `coerce_value` directly. The statement's
@@ -1909,6 +1928,7 @@ def run(ctx):
     run_corpus(ctx)
     run_extremes(ctx)
     run_cross_kind(ctx)
+    run_stand_in_scalar(ctx)
     run_nested_vars(ctx)
     run_collisions(ctx)
     run_pynum(ctx, ctx.n(2000, 15000))
@@ -1962,6 +1982,10 @@ def replay(ctx, data, record=False):
         return True
     if inp.get("check") == "extreme":
         return replay_extreme(inp)
+    if inp.get("check") == "stand-in":
+        c2 = type(ctx)(ctx.prop, ctx.tier, ctx.seed)
+        run_stand_in_scalar(c2)
+        return not any(f["signature"] == data.get("signature") for f in c2.found)
     if inp.get("check") == "nested-var":
         c2 = type(ctx)(ctx.prop, ctx.tier, ctx.seed)
         c2.model_ok = False
